@@ -85,17 +85,25 @@ structure GoodOrd (cmp : Str → Str → Int) : Prop where
 
 /-! ## the view a lookup has (interface with C07 / D16)
 
-A stack whose cache a fresh process *accepted* is loaded for the native flavor only; a stack that was
-rebuilt in this process holds every flavor of the database.  Which of the two happened is decided by
-the load-versus-rebuild rule (C07's model); here it is an input, one `Bool` per stack. -/
+A stack whose cache a fresh process *accepted* is loaded for the flavors the process asked the cache
+for (`neededFlavors`); a stack that was rebuilt in this process holds every flavor of the database.
+Which of the two happened is decided by the load-versus-rebuild rule (C07's model); here it is an
+input, one `Bool` per stack.
 
-def restrictStack (native : Str) (st : Stack) : Stack :=
-  { decls := st.decls.filter (fun d => d.flavor == native),
-    tags := st.tags.filter (fun t => t.flavor == native) }
+Since fix 9143b09 `Eups.__init__` installs the configured fallback flavors before it reads the cache,
+so `loaded` = the native flavor and its fallbacks — exactly the flavors the flavor loop of `setup`
+visits.  Before it (`…Pinned` below, D16) the list was the native flavor alone. -/
 
-def cacheView (native : Str) : List Bool → Db → Db
-  | a :: as, st :: rest => (if a then restrictStack native st else st) :: cacheView native as rest
+def restrictStack (loaded : List Str) (st : Stack) : Stack :=
+  { decls := st.decls.filter (fun d => loaded.contains d.flavor),
+    tags := st.tags.filter (fun t => loaded.contains t.flavor) }
+
+def cacheView (loaded : List Str) : List Bool → Db → Db
+  | a :: as, st :: rest => (if a then restrictStack loaded st else st) :: cacheView loaded as rest
   | _, rest => rest
+
+/-- the pinned tree (before 9143b09): an accepted cache is read for the native flavor only -/
+def cacheViewPinned (native : Str) : List Bool → Db → Db := cacheView [native]
 
 /-- how an `Eups` instance reaches the database -/
 inductive Mode where
@@ -272,12 +280,17 @@ structure Ctx where
 def Ctx.recognized (C : Ctx) (e : Str) : Bool :=
   C.globalTags.contains e || e == kLatest || pseudoTags.contains e
 
-/-- the two views of a lookup, from the full database, the mode and the per-stack load outcome -/
-def mkCtx (o : Ord) (globalTags : List Str) (full : Db) (m : Mode) (native : Str) (accepted : List Bool) : Ctx :=
+/-- the two views of a lookup, from the full database, the mode, the flavors the process reads from an
+accepted cache (native + fallbacks) and the per-stack load outcome -/
+def mkCtx (o : Ord) (globalTags : List Str) (full : Db) (m : Mode) (loaded : List Str) (accepted : List Bool) : Ctx :=
   match m with
   | .files => ⟨o, full, full, globalTags⟩
-  | .cache => ⟨o, cacheView native accepted full, cacheView native accepted full, globalTags⟩
-  | .mixed => ⟨o, full, cacheView native accepted full, globalTags⟩
+  | .cache => ⟨o, cacheView loaded accepted full, cacheView loaded accepted full, globalTags⟩
+  | .mixed => ⟨o, full, cacheView loaded accepted full, globalTags⟩
+
+/-- the same on the pinned tree (D16) -/
+def mkCtxPinned (o : Ord) (globalTags : List Str) (full : Db) (m : Mode) (native : Str) (accepted : List Bool) : Ctx :=
+  mkCtx o globalTags full m [native] accepted
 
 inductive Outcome where
   | skip                                   -- `continue`
